@@ -38,6 +38,13 @@ type ResponseStorer interface {
 	) error
 }
 
+// ResponseFreshener is implemented by a [ResponseStorer] that can persist a
+// stored response after its header fields and timestamps were updated by a 304
+// (RFC 9111 §4.3.4), under the identifier it already has.
+type ResponseFreshener interface {
+	FreshenResponse(entry *Response) error
+}
+
 type responseStorer struct {
 	cache ResponseCache
 	vhn   VaryHeaderNormalizer
@@ -94,4 +101,10 @@ func (r *responseStorer) StoreResponse(
 	}
 
 	return r.cache.SetRefs(urlKey, refs)
+}
+
+var _ ResponseFreshener = (*responseStorer)(nil)
+
+func (r *responseStorer) FreshenResponse(entry *Response) error {
+	return r.cache.Set(entry.ID, entry)
 }
